@@ -71,9 +71,20 @@ theorem incCode_nat (b : Bool) (v : LV) :
   | el t i => cases i <;> simp [incCode, loadA_nat, opCode_nat, storeA_nat]
   | _ => simp [incCode]
 
+theorem asgWCode_nat (v : String) (a : WA) :
+    asgWCode (fun a => f (r a)) v a = (asgWCode r v a).map fun p => (p.1, f p.2) := by
+  simp [asgWCode]
+
+theorem binWCode_nat (v : String) (op : BOp) (x y : WA) :
+    binWCode (f n) (fun a => f (r a)) v op x y = (binWCode n r v op x y).map fun p => (p.1, f p.2) := by
+  unfold binWCode
+  by_cases h : maskLow op x y = true
+  · simp [h]
+  · by_cases h2 : lowEmitted op y = true <;> simp [h, h2, Function.comp_def]
+
 theorem rtemplate_nat (zp : String → Bool) (s : RStmt) :
     rtemplate (f n) (fun a => f (r a)) zp s = (rtemplate n r zp s).map fun p => (p.1, f p.2) := by
-  cases s <;> simp [rtemplate, asgCode_nat, binCode_nat, incCode_nat]
+  cases s <;> simp [rtemplate, asgCode_nat, binCode_nat, incCode_nat, asgWCode_nat, binWCode_nat]
 
 end nat
 
